@@ -27,6 +27,7 @@ a grid of ranges including empty ones.
 Third round: unterminated-line-flagged — the loop of internal_diff that writes the produced lines writes the no-newline marker for any
 line without a newline (or the generator has no plain `yield prefix + line` left and carries the marker itself).
 conflict-constructible — PatchConflict.__init__ applies no str-argument method to a parameter that the raise site fills with bytes.
+Fourth round: hunk-header-one-parser — iter_file_patch calls hunk_from_header() and compiles no '@@' pattern of its own.
 Does not decide: that diff followed by patch is the identity (patiencediff and the Rust parser are outside this rule).
 """
 CLASSES = {"ContextLine": b" ", "InsertLine": b"+", "RemoveLine": b"-"}
@@ -197,8 +198,15 @@ def run(ctx):
     bytes_params = {pparams[i] for r_ in raises_pc for i, a_ in enumerate(r_.args) if i < len(pparams) and _is_bytes(a_)}
     clash = [f"L{c.lineno}:{norm(c)[:50]}" for c in calls_in(fpc) if isinstance(c.func, ast.Attribute) and isinstance(c.func.value, ast.Name) and c.func.value.id in bytes_params and any(isinstance(a_, ast.Constant) and isinstance(a_.value, str) for a_ in c.args)]
     ctx.check("conflict-constructible", wpc, not clash, f"PatchConflict.__init__ treats {sorted(bytes_params)} (bytes at the raise site) with bytes arguments", construct="; ".join(clash), message=f"PatchConflict.__init__ calls a str-argument method on a value the patcher passes as bytes ({'; '.join(clash)}): raising the conflict fails with TypeError, so a diff applied to a text that does not match its context is not reported as a conflict (callers catching PatchConflict / BzrError never see it)")
+    # ---- fourth round: one parser for hunk headers -------------------------------------------------------------------------
+    fifp = repo.func(PF, "iter_file_patch")
+    uses_parser = any((call_attr(c) or norm(c.func)) == "hunk_from_header" for c in calls_in(fifp))
+    own_patterns = [norm(c)[:70] for c in calls_in(fifp) if norm(c.func) in ("re.compile", "re.match", "re.search") and c.args and isinstance(c.args[0], ast.Constant) and isinstance(c.args[0].value, (bytes, str)) and (b"@@" if isinstance(c.args[0].value, bytes) else "@@") in c.args[0].value]
+    ctx.check("hunk-header-one-parser", f"{PF}:iter_file_patch", uses_parser and not own_patterns, "the file splitter learns a hunk's original range from hunk_from_header(), the parser iter_hunks uses (tail after the second @@, short -N form)", construct="; ".join(own_patterns), message=f"iter_file_patch reads the hunk header with {'its own pattern ' + own_patterns[0] if own_patterns else 'something other than hunk_from_header()'}: where the two readers disagree (a header carrying a section heading after the second @@) the splitter's guard stays at 0, a removed line starting with '-- ' is taken for the next file header and a diff breezy wrote no longer parses")
+
 
 MUTANTS = [
+    Mutant("file splitter reads hunk headers with its own regex", PF, "            hunk = hunk_from_header(line)\n            orig_range = hunk.orig_range\n", "            m_ = re.match(rb\"@@ -\\d+(?:,(\\d+))? \\+\\d+(?:,\\d+)? @@\\n\", line)\n            orig_range = int(m_.group(1) or 1) if m_ else 0\n", expect="hunk-header-one-parser"),
     Mutant("PatchConflict strips bytes with a str argument again (fix reverted)", PF, '        self.patch_line = patch_line.rstrip(\n            b"\\n" if isinstance(patch_line, bytes) else "\\n"\n        )\n', '        self.patch_line = patch_line.rstrip("\\n")\n', expect="conflict-constructible"),
     Mutant("no-newline marker dropped from the write loop", "breezy/diff.py", '        to_file.write(line)\n        if not line.endswith(b"\\n"):\n            to_file.write(b"\\n\\\\ No newline at end of file\\n")\n', '        to_file.write(line)\n', expect="unterminated-line-flagged"),
     Mutant("leading lines copied with islice", PF, "        while line_no < hunk.orig_pos:\n            orig_line = next(orig_lines)\n            yield orig_line\n            line_no += 1\n", "        from itertools import islice\n\n        for orig_line in islice(orig_lines, hunk.orig_pos - line_no):\n            yield orig_line\n            line_no += 1\n", expect="short-text-detected"),
